@@ -67,6 +67,7 @@ class Obligation:
     msg: str = ""
     witness: Dict[str, Any] = field(default_factory=dict)
     status: str = ""  # discharged | violated | known
+    key_alpha: str = ""  # the key with the function's local names replaced by positional placeholders
 
     def ident(self) -> tuple:
         return (self.rule, self.func, self.key)
@@ -87,6 +88,7 @@ class Reporter:
         if key is None:
             key = norm_text(node)[:160] if node is not None else desc
         ob = Obligation(rule, desc, loc, bool(ok), func.short if func is not None else "", key, msg, witness or {})
+        ob.key_alpha = alpha_key(func, key)
         self.obligations.append(ob)
         return bool(ok)
 
@@ -135,9 +137,41 @@ def match_known(ob: Obligation, prop: str, known: List[dict]) -> Optional[dict]:
             continue
         ck = e.get("construct_key")
         if ck and ck != ob.key:
-            continue
+            # the same construct with a local re-named is the same finding: compare with local names abstracted
+            cka = e.get("construct_key_alpha")
+            if not (cka and ob.key_alpha and cka == ob.key_alpha):
+                continue
         return e
     return None
+
+
+_ALPHA_CACHE: Dict[int, Dict[str, str]] = {}
+
+
+def alpha_key(func, key: str) -> str:
+    """`key` with every whole-word occurrence of a local variable of `func` replaced by $<k>, k the order in which the
+    local is first bound in the function (parameters, attributes, globals keep their names).  Two trees that differ
+    only in the names of locals give the same alpha key for the same construct."""
+    if func is None or not key or getattr(func, "node", None) is None:
+        return key or ""
+    table = _ALPHA_CACHE.get(id(func.node))
+    if table is None:
+        import ast as _ast
+
+        params = set(getattr(func, "params", []) or [])
+        order = []
+        # first binding order = source order of Store names
+        stores = [x for x in _ast.walk(func.node) if isinstance(x, _ast.Name) and isinstance(x.ctx, _ast.Store)]
+        stores.sort(key=lambda n: (getattr(n, "lineno", 0), getattr(n, "col_offset", 0)))
+        for n in stores:
+            if n.id not in params and n.id not in order:
+                order.append(n.id)
+        table = {nm: f"${i}" for i, nm in enumerate(order)}
+        _ALPHA_CACHE[id(func.node)] = table
+    if not table:
+        return key
+    pat = re.compile(r"(?<![A-Za-z0-9_.])(" + "|".join(re.escape(k) for k in sorted(table, key=len, reverse=True)) + r")(?![A-Za-z0-9_])")
+    return pat.sub(lambda m: table[m.group(1)], key)
 
 
 # ---------------------------------------------------------------------------
